@@ -77,6 +77,12 @@ ProfTypes == [Base EXCEPT !.classes = {"A", "T", "R1", "R2"},
 ProfTypesVec == [Base EXCEPT !.classes = {"A", "T", "R1"}, !.methods = {"pt", "q", "tv", "trks", "vals", "valsp", "tref", "code", "color"},
                    !.where = FALSE, !.rows = {"seq", "seqseq"}, !.enums = TRUE]
 
+\* C01, second profile: the func_adl idiom of carrying several collections through a tuple or a dict:
+\*   ds.Select(lambda e: (e.A("bk1"), e.B("bk1"))).Select(lambda t: t[0].Select(...) ...)
+ProfTuples == [Base EXCEPT !.classes = {"A", "B"}, !.methods = {"pt"}, !.aggs = {"Count"}, !.where = TRUE,
+                 !.colls = {<<"A", "bk1">>, <<"B", "bk1">>}, !.rows = {"seq", "tuple"},
+                 !.topmid = {TUP(S(O("A")), S(O("B"))), DCT(S(O("A")), S(O("B")))}]
+
 \* C04: partial operations (First, index, link dereference) under guards
 ProfFault == [Base EXCEPT !.methods = {"pt", "vals", "link"}, !.consts = {<<"int", 0, 1>>},
                 !.iconsts = {0, 1, 2}, !.cmpops = {">"}, !.boolops = {"And", "Or"}, !.ifexp = TRUE,
